@@ -207,6 +207,17 @@ class Geo1Ex(Extractor):
     def on_call(self, node, fname, args, kwargs, env):
         return equilibrium_call(self, node, fname, args, kwargs, env)
 
+    def stmt(self, s, env):
+        # the data-dependent sign test is recognised by what its arm does (it negates the stored
+        # Bp), however the tested quantity is spelled (a local, a helper method's result)
+        if isinstance(s, ast.If) and "Bp_dot_grady < 0" in self.seeds:
+            def negates(arm):
+                return any(isinstance(x, ast.Assign) and self.text(x.targets[0]) == "self.Bpxy" and self.text(x.value) in ("-self.Bpxy", "-1.0*self.Bpxy", "-1*self.Bpxy") for st in arm for x in ast.walk(st))
+            if negates(s.body) != negates(s.orelse):
+                take_body = self.seeds["Bp_dot_grady < 0"] == negates(s.body)
+                return self.block(s.body if take_body else s.orelse, env)
+        return super().stmt(s, env)
+
 
 def eval_geometry1(prog, ctx, fg1, psi_decreasing, bp_negative, env=None):
     """abstractly evaluate the method assigning Brxy..Bxy on one combination of its two
@@ -249,6 +260,11 @@ def zshift_integrand_def(fz):
     for n in walk_own(fz.node):
         if isinstance(n, ast.Assign) and isinstance(n.targets[0], ast.Name) and n.targets[0].id == iname and isinstance(n.value, ast.Call):
             call = n.value
+    if call is not None and isinstance(call.func, ast.Attribute) and isinstance(call.func.value, ast.Name) and call.func.value.id == "self":
+        # the integrand as a (private) method of the same class instead of a nested function
+        cands = [g for q, g in fz.module.funcs.items() if g.name == call.func.attr and g.cls == fz.cls and q == "%s.%s" % (g.cls, g.name)]
+        if len(cands) == 1:
+            return cands[0].node, call, trap
     if call is None or not isinstance(call.func, ast.Name):
         raise AnalysisError("integrand is not the result of a local function call")
     fdef = None
@@ -265,7 +281,8 @@ def zshift_integrand(prog, ctx, fz, R, Z):
     fdef, call, trap = zshift_integrand_def(fz)
     ex = Geo1Ex(ctx, fz.module, {}, prog)
     clo = Closure(fdef, {}, ex, fdef.name)
-    return ex.call_closure(clo, [R, Z], {})
+    is_method = bool(fdef.args.args) and fdef.args.args[0].arg == "self"
+    return ex.call_closure(clo, ([Opaque("self")] if is_method else []) + [R, Z], {})
 
 
 
